@@ -2,11 +2,11 @@ package main
 
 import (
 	"fmt"
-	"strings"
 	"regexp"
 	"regexp/syntax"
 	"sort"
 	"strconv"
+	"strings"
 	"unicode"
 	"unicode/utf8"
 
